@@ -274,6 +274,9 @@ func (w *lpWorld) scrapeAll(times int) {
 		o := s.observe(true)
 		for _, stt := range o.Status {
 			t := w.truth[stt.Hash]
+			if !s.delivered[stt.Hash] {
+				continue // the shard's Prometheus was never told about it: nothing scrapes it
+			}
 			for k := 0; k < times; k++ {
 				op := scOp{Kind: "scrape", Now: lpBase + w.now, Hash: stt.Hash, Job: t.Job, Result: "ok", Keep: int(t.Series), Drop: int(t.Total - t.Series)}
 				if !t.Healthy {
@@ -478,6 +481,34 @@ func loopGen(r *rand.Rand, idx int, thorough bool) interface{} {
 			}
 			c.Init = append(c.Init, init)
 		}
+		// what two lost updates of one hand-over chain leave behind: copies of one target on several shards, ALL of
+		// them in_transfer (no normal copy anywhere)
+		if c.Shards >= 2 && r.Intn(3) == 0 {
+			h := c.Targets[r.Intn(len(c.Targets))].Hash
+			n := 0
+			for k := range c.Init {
+				for j := range c.Init[k] {
+					if c.Init[k][j].Hash == h {
+						c.Init[k][j].State = 1
+						n++
+					}
+				}
+			}
+			for k := 0; k < c.Shards && n < 2; k++ {
+				has := false
+				for _, x := range c.Init[k] {
+					has = has || x.Hash == h
+				}
+				if !has {
+					for _, t := range c.Targets {
+						if t.Hash == h {
+							c.Init[k] = append(c.Init[k], scTarget{Hash: t.Hash, Series: t.Series, Total: t.Total, State: 1})
+							n++
+						}
+					}
+				}
+			}
+		}
 	}
 	round := func(faulty bool) {
 		st := lpStep{Kind: "cycle"}
@@ -486,6 +517,9 @@ func loopGen(r *rand.Rand, idx int, thorough bool) interface{} {
 			switch r.Intn(4) {
 			case 0:
 				st.PostLost = []int{k}
+				if r.Intn(2) == 0 { // two updates of one cycle lost
+					st.PostLost = append(st.PostLost, (k+1+r.Intn(3))%4)
+				}
 			case 1:
 				st.Unreachable = []int{k}
 			case 2:
